@@ -69,23 +69,34 @@ class OpenQLCircuitFactoryManager(IOpenQLCircuitFactory):
         # Use circuit generated UUID to provide unique name to program and kernel, otherwise use (optional) circuit ID
         circuit_uuid: str = str(OpenQLCircuitFactoryManager.construct_uuid(circuit=process_circuit))
         program_uuid: str = f"program_{circuit_uuid[:8]}"
-        kernel_uuid: str = f"kernel_{circuit_uuid[:8]}"
         if circuit_id is not None:
             program_uuid = circuit_id
-        sub_program_uuid: str = f"sub_{program_uuid}"
 
         result_program: ql.Program = PlatformManager.construct_program(name=program_uuid)
-        kernel: ql.Kernel = PlatformManager.construct_kernel(name=kernel_uuid)
+        # Kernels and sub-programs are added in operation order, names are unique by their position in the (main) program
+        kernel_count: int = 0
+        sub_program_count: int = 0
+        kernel: ql.Kernel = PlatformManager.construct_kernel(name=f"kernel_{program_uuid}_{kernel_count}")
+        kernel_contains_operations: bool = False
 
         for operation_node in process_circuit._circuit_graph.get_node_iterator():
             operation: ICircuitOperation = operation_node.operation
 
             # Recursion, if operation is a composite operation
             if isinstance(operation, ICircuitCompositeOperation):
-                inner_program: ql.Program = self.construct(operation, circuit_id=sub_program_uuid)
-                # TODO: deal with repetitions
-                for i in range(operation.nr_of_repetitions):
+                # Operations collected so far are executed before the sub-circuit
+                if kernel_contains_operations:
+                    result_program.add_kernel(kernel)
+                    kernel_count += 1
+                    kernel = PlatformManager.construct_kernel(name=f"kernel_{program_uuid}_{kernel_count}")
+                    kernel_contains_operations = False
+                inner_program: ql.Program = self.construct(operation, circuit_id=f"{program_uuid}_sub{sub_program_count}")
+                sub_program_count += 1
+                if operation.nr_of_repetitions == 1:
                     result_program.add_program(inner_program)
+                else:
+                    result_program.add_for(inner_program, operation.nr_of_repetitions)
+                continue
 
             # Guard clause, if request not supported raise exception
             operation_supported: bool = self.contains(factory_key=type(operation))
@@ -94,8 +105,10 @@ class OpenQLCircuitFactoryManager(IOpenQLCircuitFactory):
             
             # Extend kernel
             kernel = self.factory_lookup[type(operation)].construct(operation, kernel)
+            kernel_contains_operations = True
 
-        result_program.add_kernel(kernel)
+        if kernel_contains_operations or kernel_count == 0:
+            result_program.add_kernel(kernel)
         return result_program
 
     def contains(self, factory_key: Type[ICircuitOperation]) -> bool:
